@@ -682,12 +682,7 @@ func (w *world) runCase(c caseID) (res caseRes) {
 		expect[int32(uint32(c.Args[0]))] = probeRes{errno: 8}
 	case c.Fn == "fd_renumber" && errno == 0:
 		from, to := int32(uint32(c.Args[0])), int32(uint32(c.Args[1]))
-		if from == to {
-			// What fd_renumber(fd, fd) leaves behind is the subject of C16 (DESIGN §6 #13), not of
-			// "any argument values are safe": the entry is not judged here, only treated as occupied.
-			skip[to] = true
-			occupied = to
-		} else {
+		if from != to { // renumbering a descriptor onto itself must leave the table as it is
 			expect[to] = pre[from]
 			expect[from] = probeRes{errno: 8}
 		}
